@@ -9,6 +9,7 @@ import Hive.MonitorTrav
 import Hive.Stack
 import Hive.Ledger
 import Hive.MonitorTimed
+import Hive.Shift
 
 open Lean Hive
 
@@ -160,6 +161,40 @@ def handleTimed (st : DState) (j : Json) : Except String Json := do
     Timed.violPrices names sim.time sim.dt prices initial obs
   pure (Json.mkObj [("diff", strs (diffs.take 12)), ("mon", strs (mon.take 12))])
 
+deriving instance FromJson for Shift.Entry
+deriving instance FromJson for Shift.Obs
+
+/-- C20 function-level record: a run of driver phases under a shift table -/
+def handleShift (st : DState) (j : Json) : Except String Json := do
+  let sim : Sim ← getField j "sim"
+  let parentTbl : List (Cell × Cell) ← optField j "parent" []
+  let tbl : List Shift.Entry ← getField j "tbl"
+  let drivers : List (VehicleId × Nat × Bool) ← getField j "drivers"
+  let obs : List Shift.Obs ← getField j "obs"
+  let dispatched : List (Int × VehicleId × Bool) ← optField j "dispatched" []
+  let env := ({ parent := parentTbl } : Oracle).env st.mechs
+  let mut s := sim
+  let mut diffs : List String := []
+  let mut k := 0
+  for o in obs do
+    let w := Shift.driverUpdates env tbl { sim := s, log := [] }
+    let avail : List (VehicleId × Bool) :=
+      (sortBy (fun (a b : Vehicle) => decide (a.id ≤ b.id)) w.sim.vehicles).filterMap fun v =>
+        match v.driver with
+        | .human a _ _ _ => some (v.id, a)
+        | .autonomous => none
+    let events : List (VehicleId × Bool) := w.log.filterMap fun
+      | .shift v b => some (v, b)
+      | _ => none
+    if w.sim.time != o.time then diffs := diffs ++ [s!"step {k} time: model={w.sim.time} impl={o.time}"]
+    if avail != o.avail then diffs := diffs ++ [s!"step {k} (time {o.time}) availability: model={avail} impl={o.avail}"]
+    if events != o.events then diffs := diffs ++ [s!"step {k} (time {o.time}) shift events: model={events} impl={o.events}"]
+    s := w.sim.tick
+    k := k + 1
+  let mon := Shift.violShift tbl drivers obs ++ dispatched.filterMap fun (t, v, a) =>
+    if a then none else some s!"C20/dispatch-off-shift| at time {t} the dispatcher assigned a request to vehicle {v} whose driver is off shift"
+  pure (Json.mkObj [("diff", strs (diffs.take 12)), ("mon", strs (mon.take 12))])
+
 /-- function-level record: one mechatronics operation -/
 def handleMech (j : Json) : Except String Json := do
   let m : Mech ← getField j "mech"
@@ -266,6 +301,10 @@ def handle (st : DState) (line : String) : DState × Json :=
       | .error e => (st, withId (Json.mkObj [("error", Json.str e)]))
     | "timed" =>
       match handleTimed st j with
+      | .ok r => (st, withId r)
+      | .error e => (st, withId (Json.mkObj [("error", Json.str e)]))
+    | "shift" =>
+      match handleShift st j with
       | .ok r => (st, withId r)
       | .error e => (st, withId (Json.mkObj [("error", Json.str e)]))
     | "mech" =>
